@@ -22,6 +22,8 @@
 #include <memory>
 #include <random>
 #include <csignal>
+#include <csetjmp>
+#include <map>
 #include <unistd.h>
 using namespace bpp; using namespace verif;
 
@@ -325,16 +327,23 @@ static std::string op(const Toks& t) {
   return "bad-op";
 }
 
-// an operation that does not come back within OP_TIMEOUT seconds answers `hang` and ends the process
-// (check.py then re-runs the remaining cases): the repaired code never needs it; the unrepaired rcont2 did
-static const unsigned OP_TIMEOUT = 5;
-static void onAlarm(int) { std::cout << "hang" << std::endl; _exit(3); }
+// An operation that does not come back within OP_TIMEOUT seconds answers `hang`: the alarm handler jumps
+// back to the interpreter loop (the interrupted library call is abandoned; whatever it held is leaked).
+// After 3 hangs of one kind of operation in a process the following ones of that kind answer `hang`
+// at once, so that a systematic non-termination costs seconds, not hours.  The repaired library never
+// needs this; the unrepaired rcont2 did.
+static const unsigned OP_TIMEOUT = 3;
+static sigjmp_buf JMP;
+static void onAlarm(int) { siglongjmp(JMP, 1); }
 
 int main() {
   std::signal(SIGALRM, onAlarm);
+  static std::map<std::string, int> hangs;
   return runLoop(
     [&](const Toks&) { RandomTools::verifDrawRecorder() = nullptr; },
     [&](const Toks& t) -> std::string {
+      if (hangs[t[0]] >= 3) return "hang";
+      if (sigsetjmp(JMP, 1) != 0) { alarm(0); RandomTools::verifDrawRecorder() = nullptr; hangs[t[0]]++; return "hang"; }
       struct Guard { Guard() { alarm(OP_TIMEOUT); } ~Guard() { alarm(0); } } guard;
       try { return op(t); }
       catch (IndexOutOfBoundsException&) { RandomTools::verifDrawRecorder() = nullptr; return "exc:index"; }
